@@ -18,7 +18,7 @@ SESSION_END = 9.0
 GRACE = 11.0
 
 
-def scenario(R, N, kind, cb_kind, close_step, call_connect_after=True):
+def scenario(R, N, kind, cb_kind, close_step, call_connect_after=True, shape="A"):
     pkts = aio.sample_packets(N, kind, srcs=(1, 2, 3, 4, 5, 6))
     tr = {"conns": [], "states": [], "got": [], "writers": [], "state_seq": [], "close_called": None, "close_returned": None,
           "bad_state_after_close": None, "open_after_close": 0, "cb_after_close": 0, "steps": 0, "pending_after_grace": []}
@@ -29,6 +29,24 @@ def scenario(R, N, kind, cb_kind, close_step, call_connect_after=True):
             tr["conns"].append(loop.time())
             if tr["close_called"] is not None:
                 tr["open_after_close"] += 1
+            if shape == "B":
+                # second session shape: immediate connection, a send whose write fails, a reset while reading, then a healthy link
+                r = asyncio.StreamReader()
+                script = {"drain": lambda w_: False}
+                if i == 0:
+                    script["write_error_at"] = 2 if kind == "waveshare" else 1
+                w = aio.FakeWriter([], i, script)
+                tr["writers"].append(w)
+                if i == 0:
+                    loop.call_later(0.3, r.feed_data, pkts[0])
+                elif i == 1:
+                    loop.call_later(0.2, r.feed_data, pkts[1])
+                    loop.call_later(0.7, r.set_exception, ConnectionResetError("reset by peer"))
+                    w.death = None
+                else:
+                    loop.call_later(0.3, r.feed_data, pkts[2])
+                w.opened_after_close = tr["close_called"] is not None
+                return r, w
             if i == 0:
                 raise ConnectionRefusedError("refused")
             await asyncio.sleep(0.2)                      # a handshake that takes time: connect is "in flight"
@@ -89,11 +107,13 @@ def scenario(R, N, kind, cb_kind, close_step, call_connect_after=True):
         aio.ENV[0].on_step = on_step
 
         async def sender():
-            await asyncio.sleep(1.6)
+            await asyncio.sleep(1.6 if shape == "A" else 1.0)
             msg = N.decoder.NMEA2000Decoder()._decode(127250, 2, 9, 255, None, bytes([9, 0x10, 0x27, 0xFF, 0x7F, 0xFF, 0x7F, 0xFD][::-1]), b"")
             await c.send(msg)
         harness_tasks.add(asyncio.ensure_future(sender()))
         harness_tasks.add(asyncio.ensure_future(c.connect()))
+        if shape == "B":
+            harness_tasks.add(asyncio.ensure_future(c.connect()))      # a second connect() call while the first is in flight
         await asyncio.sleep(SESSION_END)
         if tr["close_called"] is None:
             tr["total_steps"] = tr["steps"]
@@ -160,9 +180,10 @@ def _worker(job):
     R = _G["R"]
     N = plain()
     rep = Report(PID, _G["tier"], 0, "fault_enumeration")
-    kind, cb_kind = job
+    kind, cb_kind = job[:2]
+    shape = job[2] if len(job) > 2 else "A"
     # measuring run: how many loop steps does the un-closed session take
-    res, env = aio.run(scenario(R, N, kind, cb_kind, None))
+    res, env = aio.run(scenario(R, N, kind, cb_kind, None, shape=shape))
     if not isinstance(res, dict):
         rep.error("%r: measuring run failed: %r" % (job, res))
         return dict(violations=[], inconclusive=[], errors=rep.harness_errors, samples=[], stats=explorer.STATS, n=0)
@@ -171,18 +192,18 @@ def _worker(job):
         # the status callback itself closes the client on CONNECTED / the receive callback closes it on the first message: a single run, no injection
         if pr:
             rep.violation({"kind": "close", "client": kind, "what": pr[0].split(" at ")[0][:40]}, "%s client, %s callback calling close(): %s" % (kind, "status" if cb_kind == "closes" else "receive", "; ".join(pr[:2])),
-                          {"kind": "close", "client": kind, "cb": cb_kind, "step": None})
+                          {"kind": "close", "client": kind, "cb": cb_kind, "step": None, "shape": shape})
         rep.sample({"client": kind, "status_callback": cb_kind, "notifications": res["states"]})
         return dict(violations=rep.violations, inconclusive=[], errors=rep.harness_errors, samples=rep.samples, stats=explorer.STATS, n=1)
     T = res["total_steps"]
     n = 0
     if pr:
         rep.violation({"kind": "close", "client": kind, "what": pr[0].split(" at ")[0][:40]}, "%s client, status callback %s, close() at the end of the session: %s" % (kind, cb_kind, "; ".join(pr[:2])),
-                      {"kind": "close", "client": kind, "cb": cb_kind, "step": None})
+                      {"kind": "close", "client": kind, "cb": cb_kind, "step": None, "shape": shape})
 
     def h():
         t = 1 + EX().choose(T)
-        r2, e2 = aio.run(scenario(R, N, kind, cb_kind, t))
+        r2, e2 = aio.run(scenario(R, N, kind, cb_kind, t, shape=shape))
         return t, r2, e2
     try:
         for pa, ex in explore_iter(h, max_paths=100000, fuel=10 ** 9):
@@ -194,9 +215,9 @@ def _worker(job):
             pr = judge(r2 if isinstance(r2, dict) else {}, r2, e2, cb_kind) if isinstance(r2, dict) or isinstance(r2, BaseException) else ["no trace"]
             if pr:
                 rep.violation({"kind": "close", "client": kind, "what": pr[0].split(" at ")[0][:40]},
-                              "%s client, status callback %s, close() injected at loop step %d of %d (t=%.2f s): %s" % (
-                                  kind, cb_kind, t, T, r2.get("close_called") or -1 if isinstance(r2, dict) else -1, "; ".join(pr[:2])),
-                              {"kind": "close", "client": kind, "cb": cb_kind, "step": t})
+                              "%s client, session %s, status callback %s, close() injected at loop step %d of %d (t=%.2f s): %s" % (
+                                  kind, shape, cb_kind, t, T, r2.get("close_called") or -1 if isinstance(r2, dict) else -1, "; ".join(pr[:2])),
+                              {"kind": "close", "client": kind, "cb": cb_kind, "step": t, "shape": shape})
     except Unsupported as e:
         rep.inconc("%r: %s" % (job, e))
     rep.sample({"client": kind, "status_callback": cb_kind, "loop_steps_of_session": T, "injection_points": n, "notifications_unclosed_run": res["states"]})
@@ -208,11 +229,12 @@ def run(tier, seed):
     R = loader.load(with_io=True)
     _G.update(R=R, tier=tier)
     rep.functions = ["ioclient.AsyncIOClient.close / connect / _update_state / _receive_loop / _process_queue / send", "the four clients' _connect_impl / _receive_impl"]
-    rep.bounds = {"session": "refused attempt, 0.5 s retry wait, 0.2 s handshake, packets with a 0.4 s receive callback, mid-packet split, a send with suspending drain, EOF, reconnect",
+    rep.bounds = {"session": "A: refused attempt, 0.5 s retry wait, 0.2 s handshake, packets with a 0.4 s receive callback, mid-packet split, a send with suspending drain, EOF, reconnect; "
+                             "B: two connect() calls at once, immediate link, a send whose write fails, reconnect, reset while reading, reconnect",
                   "injection": "close() at every event-loop step of the session", "status callback": list(CB), "clients": list(aio.CLIENTS)}
     rep.stubs = ["scripted transport, virtual clock (see C13)"]
     rep.outside = ["sessions of another shape", "more than one close() call"]
-    jobs = [(k, cb) for k in aio.CLIENTS for cb in CB]
+    jobs = [(k, cb) for k in aio.CLIENTS for cb in CB] + [(k, cb, "B") for k in aio.CLIENTS for cb in ("ok", "slow", "raises")]
     parts = run_jobs(rep, _worker, jobs, timeout_s=800)
     n = sum(p["n"] for p in parts if p and "n" in p)
     rep.coverage.update(evaluations=max(1, n), distinct_nontrivial=max(2, n), exhaustive=True,
@@ -245,7 +267,7 @@ def replay_inproc(r):
     from .plain import plain
     N = plain(with_io=True)
     Rp = types.SimpleNamespace(ioclient=N.ioclient, decoder=N.decoder, encoder=N.encoder)
-    main = scenario(Rp, N, r["client"], r["cb"], r["step"])
+    main = scenario(Rp, N, r["client"], r["cb"], r["step"], shape=r.get("shape", "A"))
     res, env = aio.run(main)
     loader.TICK_HOOK[0] = None
     return {"problems": judge(res if isinstance(res, dict) else {}, res, env, r["cb"])}
